@@ -194,18 +194,24 @@ fn reply_ack_offer(cfg: &Cfg, rng: &mut Rng) {
             1 => ops::ALL_PF & !spec::PF_REPLY_ACK,
             _ => rng.next() & ((1 << 22) - 1) & !spec::PF_REPLY_ACK,
         };
-        let (peer, mut srv, be) = util::raw_server(Script { protocol_features: dev_pf, features: spec::VIRTIO_F_PROTOCOL_FEATURES, ..Script::default() });
-        let _ = c04::send_sym(&peer, &mut srv, &be, &sym(ROp::Fe(FeOp::GetFeatures)), spec::VIRTIO_F_PROTOCOL_FEATURES);
+        // irrespective of the device's feature set *and* of what was asked before: with or without a
+        // preceding GET_FEATURES, with or without VHOST_USER_F_PROTOCOL_FEATURES among the device's features
+        let gf_first = i % 2 == 0;
+        let dev_virtio = if i % 4 < 2 { spec::VIRTIO_F_PROTOCOL_FEATURES | 1 } else { 1 };
+        let (peer, mut srv, be) = util::raw_server(Script { protocol_features: dev_pf, features: dev_virtio, ..Script::default() });
+        if gf_first {
+            let _ = c04::send_sym(&peer, &mut srv, &be, &sym(ROp::Fe(FeOp::GetFeatures)), dev_virtio);
+        }
         be.lock().unwrap().script.protocol_features = dev_pf;
-        let obs = c04::send_sym(&peer, &mut srv, &be, &sym(ROp::Fe(FeOp::GetProtocolFeatures)), spec::VIRTIO_F_PROTOCOL_FEATURES);
+        let obs = c04::send_sym(&peer, &mut srv, &be, &sym(ROp::Fe(FeOp::GetProtocolFeatures)), dev_virtio);
         report::eval(1);
-        report::distinct(report::hash_mix(0x7e91, dev_pf));
+        report::distinct(report::hash_mix(0x7e91 + (i % 4), dev_pf));
         let ok = obs.as_ref().is_ok_and(|o| o.msgs.len() == 1 && o.msgs[0].body.len() == 8 && {
             let v = spec::rd_u64(&o.msgs[0].body, 0);
             v & spec::PF_REPLY_ACK != 0 && v & !spec::PF_REPLY_ACK == dev_pf
         });
         if !ok {
-            report::violation("C07:srv:get_protocol_features:reply-ack-not-offered", jo! {"device_protocol_features" => J::x64(dev_pf),
+            report::violation("C07:srv:get_protocol_features:reply-ack-not-offered", jo! {"device_protocol_features" => J::x64(dev_pf), "get_features_asked_first" => gf_first, "device_virtio_features" => J::x64(dev_virtio),
                 "reply" => obs.ok().map(|o| o.msgs.iter().map(|m| J::hex(&m.body)).collect::<Vec<J>>())}, cfg.replay("offer"));
         }
     }
